@@ -54,8 +54,8 @@ def _encrypt_blob_flow(func):
 
 
 KERNELS = [
-    K("k_cek_generate_draws", "_crypto.py", "cek_generate", ("custom", _cek_generate), [], "(Z * Z)", props=("C19",)),
-    K("k_encrypt_blob_flow", "_client.py", "_encrypt_blob", ("custom", _encrypt_blob_flow), [], B, props=("C19", "C01")),
+    K("k_cek_generate_draws", "_crypto.py", "cek_generate", ("custom", _cek_generate), [], "(Z * Z)", props=("C19", "C06")),
+    K("k_encrypt_blob_flow", "_client.py", "_encrypt_blob", ("custom", _encrypt_blob_flow), [], B, props=("C19", "C01", "C06")),
 ]
 
 # whole functions as Prelude/PyAst syntax (gen/F_e2e.v); world coq/Flow/World_e2e.v; tie theorems in coq/Proofs/Flow_e2e_<group>.v
